@@ -641,3 +641,30 @@ impl Receiver {
         self.objects.insert(*toi, obj);
     }
 }
+
+#[cfg(feature = "verif-hooks")]
+impl Receiver {
+    /// Read-only snapshot of internal containers (verification hook)
+    pub fn verif_snapshot(&self) -> crate::verif::ReceiverSnapshot {
+        let mut objects: Vec<crate::verif::ObjectSnapshot> =
+            self.objects.values().map(|o| o.verif_snapshot()).collect();
+        objects.sort_by_key(|o| o.toi);
+        crate::verif::ReceiverSnapshot {
+            tsi: self.tsi,
+            objects,
+            completed: self.objects_completed.keys().copied().collect(),
+            errors: self.objects_error.iter().copied().collect(),
+            fdt_receivers: self
+                .fdt_receivers
+                .iter()
+                .map(|(id, f)| (*id, f.verif_state()))
+                .collect(),
+            fdt_current: self
+                .fdt_current
+                .iter()
+                .map(|f| (f.fdt_id, f.verif_state()))
+                .collect(),
+            closing: self.closed_is_imminent,
+        }
+    }
+}
